@@ -5,7 +5,7 @@ import os, re, shutil, subprocess, random, hashlib, time
 import bincode_reader as br
 
 VERIF = os.path.dirname(os.path.dirname(os.path.abspath(__file__)))
-WORK = os.path.join(VERIF, "work")
+WORK = os.path.join(VERIF, "work" + ("-" + os.environ["VERIF_WORK_SUFFIX"] if os.environ.get("VERIF_WORK_SUFFIX") else ""))
 ANSI = re.compile(r"\x1b\[[0-9;]*m")
 
 def hash_name(data):
